@@ -140,7 +140,88 @@ fn sample_ops(ops: &mut Vec<Op>) {
 
 pub fn register(ops: &mut Vec<Op>) {
     sample_ops(ops);
+    register_c11(ops);
     quire_ops::<Q8E0>(ops);
     quire_ops::<Q16E1>(ops);
     quire_ops::<Q32E2>(ops);
+}
+
+// ---------------------------------------------------------------------------- C11 tables
+pub struct Tables {
+    pub p16: std::collections::BTreeMap<&'static str, Vec<u16>>,
+    pub p8: std::collections::BTreeMap<&'static str, Vec<u8>>,
+    pub dir: String,
+}
+static TABLES: std::sync::OnceLock<Option<Tables>> = std::sync::OnceLock::new();
+pub const P16_FUNCS: [&str; 10] = [
+    "exp", "exp2", "ln", "log2", "sin_pi", "cos_pi", "tan_pi", "asin_pi", "acos_pi", "atan_pi",
+];
+pub const P8_FUNCS: [&str; 2] = ["exp", "ln"];
+
+pub fn tables() -> Option<&'static Tables> {
+    TABLES
+        .get_or_init(|| {
+            let dir = std::env::var("SPVERIF_TABLES").ok()?;
+            let mut t = Tables { p16: Default::default(), p8: Default::default(), dir: dir.clone() };
+            for f in P16_FUNCS {
+                let b = std::fs::read(format!("{}/{}_p16.bin", dir, f)).ok()?;
+                if b.len() != 131072 {
+                    return None;
+                }
+                t.p16.insert(f, b.chunks(2).map(|c| u16::from_le_bytes([c[0], c[1]])).collect());
+            }
+            for f in P8_FUNCS {
+                let b = std::fs::read(format!("{}/{}_p8.bin", dir, f)).ok()?;
+                if b.len() != 256 {
+                    return None;
+                }
+                t.p8.insert(f, b);
+            }
+            Some(t)
+        })
+        .as_ref()
+}
+
+macro_rules! c11_16 {
+    ($ops:ident, $f:ident) => {
+        $ops.push(
+            Op::new(
+                concat!("P16E1::", stringify!($f)),
+                &["C11"],
+                &[Kind::Pat(crate::val::P16)],
+                OutKind::Pat(crate::val::P16),
+                |x, _, _| softposit::P16E1::from_bits(x as u16).$f().to_bits() as u64,
+            )
+            .slow(|x, _, _| tables().map(|t| t.p16[stringify!($f)][x as usize] as u64)),
+        );
+    };
+}
+macro_rules! c11_8 {
+    ($ops:ident, $f:ident) => {
+        $ops.push(
+            Op::new(
+                concat!("P8E0::", stringify!($f)),
+                &["C11"],
+                &[Kind::Pat(crate::val::P8)],
+                OutKind::Pat(crate::val::P8),
+                |x, _, _| softposit::P8E0::from_bits(x as u8).$f().to_bits() as u64,
+            )
+            .slow(|x, _, _| tables().map(|t| t.p8[stringify!($f)][x as usize] as u64)),
+        );
+    };
+}
+
+pub fn register_c11(ops: &mut Vec<Op>) {
+    c11_16!(ops, exp);
+    c11_16!(ops, exp2);
+    c11_16!(ops, ln);
+    c11_16!(ops, log2);
+    c11_16!(ops, sin_pi);
+    c11_16!(ops, cos_pi);
+    c11_16!(ops, tan_pi);
+    c11_16!(ops, asin_pi);
+    c11_16!(ops, acos_pi);
+    c11_16!(ops, atan_pi);
+    c11_8!(ops, exp);
+    c11_8!(ops, ln);
 }
